@@ -54,6 +54,10 @@ REG = {
     'seq': 55, 'seq_close_on_alias': 56, 'seq_close_in_class_of_three': 57,
     'seq_clash_against_closed_record': 58, 'seq_clash_free': 59,
     'seq_three_references': 60,
+    'seq_abstract_met_ground_then_clash_plain': 61,
+    'seq_abstract_met_ground_then_clash_as_field': 62,
+    'seq_abstract_met_ground_then_clash_as_element': 63,
+    'seq_abstract_met_ground_then_clash_through_containers': 64,
 }
 # Constructs the property's quantifier / statement names: never exercised =>
 # machinery failure (exit 2), not a pass.
@@ -70,6 +74,10 @@ REQUIRED = [
     'shared_clash_only_by_sharing', 'shared_refined_by_sharing',
     'seq', 'seq_close_on_alias', 'seq_close_in_class_of_three',
     'seq_clash_against_closed_record', 'seq_clash_free', 'seq_three_references',
+    'seq_abstract_met_ground_then_clash_plain',
+    'seq_abstract_met_ground_then_clash_as_field',
+    'seq_abstract_met_ground_then_clash_as_element',
+    'seq_abstract_met_ground_then_clash_through_containers',
 ]
 
 
@@ -222,11 +230,19 @@ def RunCase(ra, case):
     runs.append({'o': [1, 2], 'obs': _Guard(Go, 2, 2)})
   elif k == 'seq':
     ops = case['ops']
+    shape = case.get('shape', 'plain')
     def Go():
       refs = [Build(ra, t, style) for t in terms]
+      boxes = []
+      if shape == 'field':   # the containers hold the very reference objects
+        boxes = [ra.TypeReference(ra.OpenRecord({'a': r})) for r in refs]
+      elif shape == 'elem':
+        boxes = [ra.TypeReference([r]) for r in refs]
       for op in ops:
         if op[0] == 'unify':
           ra.Unify(refs[op[1] - 1], refs[op[2] - 1])
+        elif op[0] == 'unifyc':
+          ra.Unify(boxes[op[1] - 1], boxes[op[2] - 1])
         elif op[0] == 'close':
           refs[op[1] - 1].CloseRecord()
         elif op[0] == 'field':
@@ -234,8 +250,9 @@ def RunCase(ra, case):
                               Build(ra, op[3], style))
         else:
           raise ValueError(op)
-        yield Observe(ra, refs)
-    runs.append({'o': [1], 'obs': _Guard(Go, len(ops), len(terms))})
+        yield Observe(ra, refs + boxes)
+    n_obs = len(terms) * (1 if shape == 'plain' else 2)
+    runs.append({'o': [1], 'obs': _Guard(Go, len(ops), n_obs)})
   else:
     raise ValueError(k)
   return runs
@@ -278,6 +295,7 @@ def WriteShard(ra, cases, path, per_source=None):
       line['f'] = c['f']
     if c['k'] == 'seq':
       line['ops'] = c['ops']
+      line['shape'] = c.get('shape', 'plain')
     if c['k'] == 'pair':
       line['x'] = 0 if c.get('in_lemma_universe') else 1
     lines.append(line)
@@ -438,6 +456,8 @@ def FieldSource(uname, recs, vals, fields):
 def ShowOp(op):
   if op[0] == 'unify':
     return 'Unify(r%d, r%d)' % (op[1], op[2])
+  if op[0] == 'unifyc':
+    return 'Unify(box%d, box%d)' % (op[1], op[2])
   if op[0] == 'close':
     return 'r%d.CloseRecord()' % op[1]
   return 'UnifyRecordField(r%d, %s, %s)' % (op[1], op[2], Show(op[3]))
@@ -450,7 +470,8 @@ def SeqSource(name, seqs):
     for k in range(lo, hi):
       st = ('ref', 'chain')[k % 2]
       out.append({'id': '%s/seq/%d/%s' % (name, k, st), 'k': 'seq', 'style': st,
-                  'terms': seqs[k]['init'], 'ops': seqs[k]['ops']})
+                  'terms': seqs[k]['init'], 'ops': seqs[k]['ops'],
+                  'shape': seqs[k].get('shape', 'plain')})
     return out
   return Get, len(seqs)
 
@@ -613,8 +634,8 @@ LEMMA_CFGS = {
 
 
 STORE_CFGS = {
-    'quick': ['two3', 'three3q'],
-    'thorough': ['two3', 'three3', 'two4', 'three4'],
+    'quick': ['two3', 'three3q', 'atoms2'],
+    'thorough': ['two3', 'three3', 'two4', 'three4', 'atoms2', 'atoms3'],
 }
 
 
@@ -642,7 +663,10 @@ def RunLemmas(tier):
         'violated': r.invariant_violated,
         'sizes': [int(x) for x in m.groups()] if m else None,
         'U': ParsePrinted(r.out, 'T'), 'U3': ParsePrinted(r.out, 'T3'),
-        'SEQ': ParsePrinted(r.out, 'SEQ'),
+        # TLC workers print in no fixed order: sort, so that seeded samples
+        # of the sequences are reproducible.
+        'SEQ': sorted(ParsePrinted(r.out, 'SEQ'),
+                      key=lambda q: json.dumps(q, sort_keys=True)),
         'tail': '' if r.ok else r.out[-2500:],
     }
   return out
@@ -666,6 +690,11 @@ def Signature(case, fail):
          'tops': '/'.join(sorted(Top(t) for t in case['terms']))}
   if case['k'] == 'seq':
     sig['ops'] = '/'.join(op[0] for op in case['ops'])
+    sig['shape'] = case.get('shape', 'plain')
+    # TLC's localisation of a class-agreement failure (see LinkApply).
+    devs = {x['exp'].get('deviation') for x in fail['fails']
+            if x['clause'] == 'seq_class_agrees' and isinstance(x['exp'], dict)}
+    sig['deviation'] = '+'.join(sorted(d for d in devs if d)) or 'none'
   return sig
 
 
@@ -676,8 +705,9 @@ def Plan(tier, lem, rng):
   thorough = tier == 'thorough'
   big = 10 ** 9
   for name in STORE_CFGS[tier]:
-    cap = {'two3': big if thorough else 5000, 'three3q': 3000, 'three3': big,
-           'two4': big, 'three4': 40000}[name]
+    cap = {'two3': big if thorough else 4000, 'three3q': 2500, 'three3': big,
+           'two4': big, 'three4': 40000, 'atoms2': big if thorough else 6000,
+           'atoms3': 40000}[name]
     g, n, complete = Sampled(SeqSource(name, lem['store_' + name]['SEQ']), cap,
                              rng)
     plan['seq_' + name] = (g, n, 0, complete)
@@ -743,6 +773,7 @@ def Sample(ra, c):
           'bounds_of_shared_references': [Show(t) for t in c.get('bounds', [])],
           'field': c.get('f', ''), 'order': runs[0]['o'],
           'operations': [ShowOp(op) for op in c.get('ops', [])],
+          'containers': c.get('shape', ''),
           'rendered_after_each_call': [[Show(x) for x in step]
                                        for step in runs[0]['obs']]}
 
